@@ -734,6 +734,7 @@ ASSUMPTIONS = ['a field element is modelled by its standard-form integer; reader
                'endomorphism tests; property C12) are modelled by r*P = O with the affine group law',
                'Projective::batch_check: normalize_batch is modelled pointwise (the shared inversion is an optimisation)']
 HYPOTHESES = ['CodecOK of the base-field codec (proved for Fp and lifted through towers in C09)',
+              'cof <> [] (non-empty COFACTOR slice)', '1 <= nb, 1 <= d (ZCash override: bytes per coordinate, coordinates)',
               'field_theory of the base field / feqb decides equality (curve-equation statements)',
               'sqrt oracle specification (sqrt_some / sqrt_none)',
-              'group laws of the point addition (assoc, identity) for double-and-add = r-fold sum']
+              'associativity of the point addition (double-and-add = r-fold sum)']
